@@ -25,6 +25,7 @@ class CCfg:
     kwargs: bool = True
     setup: bool = False
     flavours: str = "s"
+    features: str = "all"  # "act": only programs with an activation edge (used by the C10 check)
 
 
 def _snapshot(d: Any) -> Any:
@@ -65,6 +66,9 @@ def run_compose(cfg: CCfg, c: Ctx) -> Any:
     feats += [("alias", "id"), ("alias", "tag"), ("alias", "id-substring-tags"), ("alias", "tag-substring-tags")]
     if cfg.activation and cfg.indexed:
         feats += [("actidx", labels[j], labels[i]) for i in range(N) for j in range(i)]
+    if cfg.features == "act":
+        feats = [f for f in feats if f and f[0] in ("act", "actidx")]
+        c.assume(bool(feats))
     feat = feats[c.choose(len(feats), "feature")]
     idx_use: Optional[Tuple[str, str]] = (feat[1], feat[2]) if feat and feat[0] == "idx" else None
     kw_use = {l: bool(feat and feat[0] == "kw" and feat[1] == l) for l in labels}
